@@ -512,7 +512,7 @@ func diff(a, b []string) []string {
 
 var assumptions = []string{
 	"every parent delivers its messages in non-decreasing time order (the property's premise); all parents end together (task drain)",
-	"stream edges; join without on() dimensions (batch joins and join-on-dimension are not covered in this stage)",
+	"unit Join: stream edges, join without on() dimensions (join-on-dimension and batch parents are the units JoinOn and JoinBatch)",
 	"the k-th message of a parent at a (tolerance-rounded) timestamp and group pairs with the k-th messages of the other parents; an incomplete set is dropped by an inner join and filled by an outer join, its fill field names copied from the first present parent, its name taken from streamName or the first present parent",
 	"rounding to the tolerance uses Go's time.Round, as the documentation's 'rounded to the nearest multiple of the tolerance' (trusted stdlib)",
 	"schedule control is best effort: the harness feeds one message at a time and waits (bounded) for the node's collected counter; a missed gate only reduces schedule coverage because the oracle does not depend on the schedule",
